@@ -144,7 +144,7 @@ func (e *c26Env) closeSwamp(n string) bool {
 	select {
 	case <-done:
 		return true
-	case <-time.After(e.watchdog):
+	case <-time.After(pbt.Bound(e.watchdog)):
 		return false
 	}
 }
@@ -492,7 +492,7 @@ func (e *c26Env) call(route, rpc string, req proto.Message) callResult {
 	select {
 	case res := <-ch:
 		return res
-	case <-time.After(e.watchdog):
+	case <-time.After(pbt.Bound(e.watchdog)):
 		return callResult{hung: true}
 	}
 }
@@ -516,14 +516,14 @@ func (e *c26Env) readAll(ref swampRef) (ts []*hydrapb.Treasure, exists bool, fai
 			}
 			ch <- o
 		}()
-		ctx, cancel := context.WithTimeout(context.Background(), e.watchdog)
+		ctx, cancel := context.WithTimeout(context.Background(), pbt.Bound(e.watchdog))
 		defer cancel()
 		o.resp, o.err = e.r.G.GetAll(ctx, &hydrapb.GetAllRequest{IslandID: ref.Island, SwampName: ref.Name})
 	}()
 	var o out
 	select {
 	case o = <-ch:
-	case <-time.After(e.watchdog + time.Second):
+	case <-time.After(pbt.Bound(e.watchdog) + time.Second):
 		return nil, false, "hang"
 	}
 	if o.pv != nil {
@@ -954,14 +954,14 @@ func (e *c26Env) destroy(r swampRef) *pbt.Outcome {
 	go func() {
 		defer close(done)
 		defer func() { recover() }()
-		ctx, cancel := context.WithTimeout(context.Background(), e.watchdog)
+		ctx, cancel := context.WithTimeout(context.Background(), pbt.Bound(e.watchdog))
 		defer cancel()
 		e.r.G.Destroy(ctx, &hydrapb.DestroyRequest{IslandID: r.Island, SwampName: r.Name})
 	}()
 	select {
 	case <-done:
 		return nil
-	case <-time.After(e.watchdog):
+	case <-time.After(pbt.Bound(e.watchdog)):
 		e.poisoned = true
 		o := pbt.Failf("hang", "swamp %s could not be destroyed within %v", shortK(r.Name), e.watchdog)
 		return &o
